@@ -414,6 +414,8 @@ def run(ctx: core.Ctx) -> None:
                 ctx.cap(c)
         ctx.counters['states'] = ctx.set_size('outcomes')
         ctx.counters['nontrivial'] = ctx.set_size('outcomes')
+        ctx.coverage_extra['replayed_twice'] = edev.REPLAY_STATS['replayed_twice']
+        ctx.coverage_extra['divergences'] = edev.REPLAY_STATS['divergences']
     finally:
         pool.close()
         pool.join()
@@ -430,6 +432,7 @@ def explore_benign_then_fault(pool, params, record, two=False):
         for alt in menu:
             layer1.append({i: alt})
     results1 = results = pool.map(run_one, [(params, c) for c in layer1], chunksize=8)
+    edev.replay_some(pool, run_one, params, layer1, results)
     layer2 = []
     for c, (res, menus) in zip(layer1, results):
         record(c, res)
@@ -443,6 +446,7 @@ def explore_benign_then_fault(pool, params, record, two=False):
                         c2[j] = alt2
                         layer2.append(c2)
     results = pool.map(run_one, [(params, c) for c in layer2], chunksize=8)
+    edev.replay_some(pool, run_one, params, layer2, results)
     for c, (res, menus) in zip(layer2, results):
         record(c, res)
         total += 1
